@@ -68,6 +68,16 @@ class Flow:
         self.c = client
         self.n_stmts = 0
 
+    def _assume(self, test, branch, S):
+        """`a and b` holds -> a holds and b holds; `a or b` fails -> both fail; `not a` exchanges the outcome; everything else is the client's"""
+        while isinstance(test, ast.UnaryOp) and isinstance(test.op, ast.Not):
+            test, branch = test.operand, not branch
+        if isinstance(test, ast.BoolOp) and ((isinstance(test.op, ast.And) and branch) or (isinstance(test.op, ast.Or) and not branch)):
+            for v in test.values:
+                S = self._assume(v, branch, S)
+            return S
+        return self.c.assume(test, branch, S)
+
     def may_raise(self, node):
         for c in calls_in(node):
             f = c.func
@@ -106,8 +116,8 @@ class Flow:
             t_, pos = s.test, True
             while isinstance(t_, ast.UnaryOp) and isinstance(t_.op, ast.Not):
                 t_, pos = t_.operand, not pos            # `if not c:` refines like `if c:` with the branches exchanged
-            S1, e1 = self.block(s.body, c.assume(t_, pos, S))
-            S2, e2 = self.block(s.orelse, c.assume(t_, not pos, S))
+            S1, e1 = self.block(s.body, self._assume(t_, pos, S))
+            S2, e2 = self.block(s.orelse, self._assume(t_, not pos, S))
             return join(S1, S2), ex + e1 + e2
         if isinstance(s, (ast.For, ast.While)):
             head = s.iter if isinstance(s, ast.For) else s.test
